@@ -23,11 +23,18 @@ func (ex *Exec) prepareCall(s *State, fr *Frame, cc *ssa.CallCommon) (Value, []V
 		if iv.T == nil {
 			return nil, nil, &goPanic{"nil pointer dereference (method call on nil interface)"}
 		}
-		fn, err := ex.lookupMethod(iv.T, cc.Method)
-		if err != nil {
-			return nil, nil, err
+		if pt, ok := iv.T.(*types.Pointer); ok && pt.Elem() == hashType {
+			name := cc.Method.Name()
+			fnv = &FuncV{Native: func(ex *Exec, s *State, cc *ssa.CallCommon, a []Value) (Value, *Fork, error) {
+				return ex.hashMethod(s, name, a)
+			}}
+		} else {
+			fn, err := ex.lookupMethod(iv.T, cc.Method)
+			if err != nil {
+				return nil, nil, err
+			}
+			fnv = &FuncV{Fn: fn}
 		}
-		fnv = &FuncV{Fn: fn}
 		args = append(args, iv.V)
 	} else {
 		v, err := ex.get(s, fr, cc.Value)
@@ -86,6 +93,20 @@ func (ex *Exec) callValue(s *State, fr *Frame, instr ssa.Value, cc *ssa.CallComm
 		}
 		if instr != nil {
 			fr.Locals[instr] = r
+		}
+		fr.IP++
+		return nil, nil
+	}
+	if f.Native != nil {
+		ret, fork, err := f.Native(ex, s, cc, args)
+		if err != nil {
+			return nil, err
+		}
+		if fork != nil {
+			return ex.applyFork(s, instr, fork), nil
+		}
+		if instr != nil {
+			fr.Locals[instr] = ret
 		}
 		fr.IP++
 		return nil, nil
@@ -156,6 +177,7 @@ func (ex *Exec) callValue(s *State, fr *Frame, instr ssa.Value, cc *ssa.CallComm
 // pushed is returned by models that pushed a frame themselves.
 type pushed struct{}
 
+
 func (ex *Exec) applyFork(s *State, instr ssa.Value, fork *Fork) []*State {
 	var out []*State
 	for i, a := range fork.Alts {
@@ -177,6 +199,9 @@ func (ex *Exec) applyFork(s *State, instr ssa.Value, fork *Fork) []*State {
 		}
 		if a.Cond != nil && !a.Cond.IsTrue() {
 			t.PC = append(t.PC, a.Cond)
+		}
+		if a.Tag != "" {
+			t.Choice += a.Tag
 		}
 		if a.Panic != "" {
 			ex.doPanic(t, a.Panic)
